@@ -79,14 +79,17 @@ fn wrapped_inner_id(e: &(dyn StdError + 'static)) -> Option<u32> {
     None
 }
 
-fn run_one(cfg: &Cfg, script: &[u8], trace: bool) -> (Vec<(String, String)>, String, Vec<String>) {
+/// `prelude`: outcome script of an earlier request sent through the same service (empty = no
+/// earlier request). The request under judgement then starts from whatever state the earlier
+/// one left behind (Connected after a success; attempt counters, back-off state).
+fn run_one(cfg: &Cfg, prelude: &[u8], script: &[u8], trace: bool) -> (Vec<(String, String)>, String, Vec<String>) {
     let site = "ReconnectService";
     let mut viols: Vec<(String, String)> = vec![];
     let mut log = vec![];
-    let mut w = World::new(1, 10, Mode::Script, 1);
+    let mut w = World::new(2, 10, Mode::Script, 1);
     {
         let mut g = w.inner.lock().unwrap();
-        for o in script {
+        for o in prelude.iter() {
             g.script.push_back(Plan::now(match o {
                 0 => Out::Ok,
                 1 => Out::Err(0),
@@ -113,12 +116,7 @@ fn run_one(cfg: &Cfg, script: &[u8], trace: bool) -> (Vec<(String, String)>, Str
         let st = state.clone();
         w.inner.lock().unwrap().on_call = Some(Arc::new(move |k| at.lock().unwrap().push((k, st.state()))));
     }
-    drive_ready::<_, Req>(&mut svc, 4).expect("ready").ok();
-    let req = Req::new(1, 0);
-    let f = svc.call(req.clone());
-    w.set_arrived(
-        0,
-        req,
+    let wrap = |f: <tower_resilience_reconnect::ReconnectService<GatedInner> as Service<Req>>::Future| -> trv_core::world::CallerFut {
         Box::pin(async move {
             match f.await {
                 Ok(r) => Outcome::Ok(r),
@@ -127,8 +125,50 @@ fn run_one(cfg: &Cfg, script: &[u8], trace: bool) -> (Vec<(String, String)>, Str
                     Outcome::Layer(format!("{}|wraps={:?}", e.to_string().split(':').next().unwrap_or(""), id))
                 }
             }
-        }),
-    );
+        })
+    };
+    let mut prelude_ok = None;
+    if !prelude.is_empty() {
+        drive_ready::<_, Req>(&mut svc, 4).expect("ready").ok();
+        let req0 = Req::new(0, 0);
+        let f0 = svc.call(req0.clone());
+        w.set_arrived(1, req0, wrap(f0));
+        for _ in 0..1000 {
+            if w.needs_poll(1) {
+                w.poll_caller(1);
+            }
+            if !w.callers[1].is_live() {
+                break;
+            }
+            w.tick();
+        }
+        if w.callers[1].is_live() {
+            viols.push(("never_resolves".into(), "the earlier request did not resolve within 200 events".into()));
+            return (viols, "stuck".into(), log);
+        }
+        prelude_ok = Some(matches!(w.callers[1].phase, Phase::Done(Outcome::Ok(_))));
+        if prelude_ok == Some(true) && state.state() != ConnectionState::Connected {
+            viols.push(("not_connected_after_success".into(), format!("state {:?} after the earlier request succeeded", state.state())));
+        }
+        // script entries the earlier request did not consume must not leak into this one
+        w.inner.lock().unwrap().script.clear();
+    }
+    {
+        let mut g = w.inner.lock().unwrap();
+        for o in script {
+            g.script.push_back(Plan::now(match o {
+                0 => Out::Ok,
+                1 => Out::Err(0),
+                _ => Out::Err(1),
+            }));
+        }
+    }
+    let first_call = w.inner.lock().unwrap().calls.len();
+    at_call.lock().unwrap().clear();
+    drive_ready::<_, Req>(&mut svc, 4).expect("ready").ok();
+    let req = Req::new(1, 0);
+    let f = svc.call(req.clone());
+    w.set_arrived(0, req, wrap(f));
     let mut sleeping_states = vec![];
     for _ in 0..200 {
         if w.needs_poll(0) {
@@ -142,9 +182,11 @@ fn run_one(cfg: &Cfg, script: &[u8], trace: bool) -> (Vec<(String, String)>, Str
         w.tick();
     }
     let g = w.inner.lock().unwrap();
-    let n = g.calls.len();
+    let calls: Vec<&trv_core::inner::CallRec> = g.calls.iter().filter(|c| c.req.id == 1).collect();
+    let n = calls.len();
     if trace {
-        for c in g.calls.iter() {
+        log.push(format!("earlier request: script {:?} succeeded={:?}; {} inner calls", prelude, prelude_ok, first_call));
+        for c in calls.iter() {
             log.push(format!("inner call {} at {}ms -> {:?}", c.k, c.start_ms, c.status));
         }
         log.push(format!("states at call starts {:?}; while sleeping {:?}; final {:?}; result {:?}", at_call.lock().unwrap(), sleeping_states, state.state(), w.callers[0].phase));
@@ -162,7 +204,7 @@ fn run_one(cfg: &Cfg, script: &[u8], trace: bool) -> (Vec<(String, String)>, Str
         }
     }
     for k in 1..n {
-        let prev = &g.calls[k - 1];
+        let prev = calls[k - 1];
         match &prev.status {
             CallStatus::Err(e) if is_reconnectable(cfg, e.kind) => {}
             other => viols.push(("retried_after_non_connection_outcome".into(), format!("attempt {k} ended {:?} but another attempt followed", other))),
@@ -170,7 +212,7 @@ fn run_one(cfg: &Cfg, script: &[u8], trace: bool) -> (Vec<(String, String)>, Str
         if !cfg.retry_on_reconnect {
             viols.push(("retried_with_retry_disabled".into(), "retry_on_reconnect=false but the request was retried".into()));
         }
-        let gap = (g.calls[k].start_ms - prev.end_ms.unwrap_or(prev.start_ms)) as f64;
+        let gap = (calls[k].start_ms - prev.end_ms.unwrap_or(prev.start_ms)) as f64;
         // the layer may number its attempts from 0 or from 1: accept the smaller delay
         let need = cfg.pol.delay_lo(k - 1).min(cfg.pol.delay_lo(k)).floor();
         if gap < need {
@@ -180,7 +222,10 @@ fn run_one(cfg: &Cfg, script: &[u8], trace: bool) -> (Vec<(String, String)>, Str
             viols.push(("retried_without_policy".into(), "policy none but the request was retried".into()));
         }
     }
-    let last = &g.calls[n - 1];
+    if n == 0 {
+        return (viols, "0:none".into(), log);
+    }
+    let last = calls[n - 1];
     let outcome = match &w.callers[0].phase {
         Phase::Done(o) => o.clone(),
         p => Outcome::Layer(format!("{p:?}")),
@@ -205,8 +250,8 @@ fn run_one(cfg: &Cfg, script: &[u8], trace: bool) -> (Vec<(String, String)>, Str
         }
     }
     for (k, s) in at_call.lock().unwrap().iter() {
-        if *k >= 1 && *s == ConnectionState::Connected {
-            viols.push(("connected_while_reconnecting".into(), format!("state Connected at the start of retry #{k}")));
+        if *k >= first_call + 1 && *s == ConnectionState::Connected {
+            viols.push(("connected_while_reconnecting".into(), format!("state Connected at the start of retry #{}", k - first_call)));
         }
     }
     let _ = site;
@@ -263,11 +308,12 @@ fn main() {
     if let Some(p) = cli.replay {
         let v = trv_core::load_replay(&p);
         let label = v["config"].as_str().unwrap_or("");
-        let script: Vec<u8> = v["history"].as_array().map(|a| a.iter().filter_map(|x| names.iter().position(|n| Some(*n) == x.as_str()).map(|i| i as u8)).collect()).unwrap_or_default();
+        let parse = |x: &serde_json::Value| -> Vec<u8> { x.as_array().map(|a| a.iter().filter_map(|x| names.iter().position(|n| Some(*n) == x.as_str()).map(|i| i as u8)).collect()).unwrap_or_default() };
+        let (prelude, script) = if v["history"].is_array() { (vec![], parse(&v["history"])) } else { (parse(&v["history"]["earlier_request"]), parse(&v["history"]["script"])) };
         let kind = v["kind"].as_str().unwrap_or("");
         for cfg in grid(Tier::Thorough) {
             if cfg.label() == label {
-                let (viols, _, log) = run_one(&cfg, &script, true);
+                let (viols, _, log) = run_one(&cfg, &prelude, &script, true);
                 for l in log {
                     println!("{l}");
                 }
@@ -287,7 +333,7 @@ fn main() {
     }
     let tier = cli.tier;
     let mut rep = Report::new("C16", tier, "exploration");
-    rep.rule = "full grid: every inner-outcome script over {ok, connection error, other error} of length max_attempts+2 (4 + final ok when unlimited) x max_attempts {0,1,2,3,unlimited} x policy {none, fixed, exponential, jittered, custom} x retry_on_reconnect x predicate, each run stepped event by event under virtual time with the published connection state sampled during every sleep and at every inner call start; distinct = distinct (configuration, attempts made, result) triples".into();
+    rep.rule = "full grid: every inner-outcome script over {ok, connection error, other error} of length max_attempts+2 (4 + final ok when unlimited) x max_attempts {0,1,2,3,unlimited} x policy {none, fixed, exponential, jittered, custom} x retry_on_reconnect x predicate x an earlier request through the same service {none, succeeds at once, succeeds after one reconnect, fails with a non-connection error, meets connection errors only}, each run stepped event by event under virtual time with the published connection state sampled during every sleep and at every inner call start; distinct = distinct (configuration, attempts made, result) triples".into();
     rep.assumptions = vec![
         "the delay before retry k is compared with the smaller of the policy's values for attempt indices k-1 and k (the documentation does not fix the numbering)".into(),
         "jittered delays: lower bound (1 - randomization factor) x base checked on every draw".into(),
@@ -295,42 +341,53 @@ fn main() {
     let cfgs = grid(tier);
     let mut reported = std::collections::BTreeSet::new();
     let mut n_scripts = 0u64;
+    // an earlier request through the same service: none / succeeds at once / succeeds after one
+    // reconnect / fails with a non-connection error / meets connection errors only
+    let preludes: Vec<Vec<u8>> = vec![vec![], vec![0], vec![1, 0], vec![2], vec![1, 1, 1, 1, 1]];
     for cfg in &cfgs {
-        for s in scripts(cfg) {
-            let (viols, outcome, _) = run_one(cfg, &s, false);
-            rep.evaluations += 1;
-            n_scripts += 1;
-            rep.distinct.insert(format!("{}|{}", cfg.label(), outcome));
-            rep.outcomes.insert(outcome.clone());
-            if outcome.starts_with("2:") || outcome.starts_with("3:") || outcome.starts_with("4:") {
-                rep.witness("retried", 1);
+        for pre in &preludes {
+            if pre.len() == 5 && cfg.max.is_none() && cfg.retry_on_reconnect && cfg.pol != Pol::None {
+                // unlimited attempts: the scripted errors are followed by the default success
             }
-            if outcome.contains("max reconnection") {
-                rep.witness("max_attempts_exceeded", 1);
-            }
-            if outcome.contains("service error") {
-                rep.witness("non_connection_error_not_retried", 1);
-            }
-            for (kind, detail) in viols {
-                if reported.insert(kind.clone()) {
-                    let (_, _, log) = run_one(cfg, &s, true);
-                    rep.violations.push(Violation {
-                        property: "C16".into(),
-                        kind,
-                        site: "ReconnectService".into(),
-                        config: cfg.label(),
-                        history: json!(s.iter().map(|o| names[*o as usize]).collect::<Vec<_>>()),
-                        detail,
-                        log,
-                    });
+            for s in scripts(cfg) {
+                let (viols, outcome, _) = run_one(cfg, pre, &s, false);
+                rep.evaluations += 1;
+                n_scripts += 1;
+                rep.distinct.insert(format!("{}|{:?}|{}", cfg.label(), pre, outcome));
+                rep.outcomes.insert(outcome.clone());
+                if outcome.starts_with("2:") || outcome.starts_with("3:") || outcome.starts_with("4:") {
+                    rep.witness("retried", 1);
+                    if pre.len() == 1 || pre.len() == 2 {
+                        rep.witness("retried_after_an_earlier_success", 1);
+                    }
                 }
-            }
-            if n_scripts % 977 == 1 {
-                rep.sample(json!({"config": cfg.label(), "script": s.iter().map(|o| names[*o as usize]).collect::<Vec<_>>(), "attempts:result": outcome}));
+                if outcome.contains("max reconnection") {
+                    rep.witness("max_attempts_exceeded", 1);
+                }
+                if outcome.contains("service error") {
+                    rep.witness("non_connection_error_not_retried", 1);
+                }
+                for (kind, detail) in viols {
+                    if reported.insert(kind.clone()) {
+                        let (_, _, log) = run_one(cfg, pre, &s, true);
+                        rep.violations.push(Violation {
+                            property: "C16".into(),
+                            kind,
+                            site: "ReconnectService".into(),
+                            config: cfg.label(),
+                            history: json!({"earlier_request": pre.iter().map(|o| names[*o as usize]).collect::<Vec<_>>(), "script": s.iter().map(|o| names[*o as usize]).collect::<Vec<_>>()}),
+                            detail,
+                            log,
+                        });
+                    }
+                }
+                if n_scripts % 977 == 1 {
+                    rep.sample(json!({"config": cfg.label(), "earlier_request": pre.iter().map(|o| names[*o as usize]).collect::<Vec<_>>(), "script": s.iter().map(|o| names[*o as usize]).collect::<Vec<_>>(), "attempts:result": outcome}));
+                }
             }
         }
     }
-    for w in ["retried", "max_attempts_exceeded", "non_connection_error_not_retried"] {
+    for w in ["retried", "retried_after_an_earlier_success", "max_attempts_exceeded", "non_connection_error_not_retried"] {
         rep.require_witness(w);
     }
     rep.bounds = json!({"configurations": cfgs.len(), "scripts": n_scripts});
